@@ -1029,6 +1029,7 @@ evaluate() const {
       abort();
     }
 
+  case T_lambda:
   case T_requires_expr:
     return Result();
 
